@@ -10,7 +10,11 @@ from concurrent.futures import ThreadPoolExecutor
 VERIF = os.path.dirname(os.path.dirname(os.path.abspath(__file__)))
 JARS = "/opt/veriftools/tla/tla2tools.jar:/opt/veriftools/tla/CommunityModules-deps.jar"
 LIB = ":".join(os.path.join(VERIF, d) for d in ("spec", "trace", "mc"))
-WORK = os.path.join(VERIF, ".work")
+# VERIF_OUT: where scratch files, evidence and replays go (default: /verif). tools/mutant.sh points it elsewhere so that runs against a
+# seeded change never overwrite the evidence of the real tree and several of them can run at once.
+OUT = os.environ.get("VERIF_OUT") or VERIF
+WORK = os.path.join(OUT, ".work")
+os.makedirs(WORK, exist_ok=True)
 NCPU = os.cpu_count() or 4
 
 
